@@ -1,4 +1,4 @@
-CONSTANTS MaxLen = 7
+CONSTANTS MaxLen = 9
   EmitHist = FALSE
   Marker <- ShortMarker
 SPECIFICATION Spec
